@@ -25,9 +25,79 @@ def ops(URL):
     ]
 
 
+def signals(n, rounds):
+    """'sig' mode: the MAIN thread (the only one that runs Python-level signal handlers) quotes long texts while an interval timer
+    keeps a trivial Python handler pending and n worker threads quote other texts; every result is compared with the value the same
+    call gave before the timer and the threads were started.  Prints a JSON list of mismatches (empty = all equal)."""
+    import signal
+    import time
+
+    from yarl import URL
+
+    longs = [("path", "http://example.com/" + "a" * 4500 + " " + "b" * 2500 + "/\u20ac"), ("query", "http://example.com/p?k=" + "c" * 5000 + "%zz" + "d" * 2000 + " x"),
+             ("fragment", "http://example.com/#" + "e" * 4100 + "\xe9" + "f" * 100), ("userinfo", "http://" + "u" * 4200 + " :pw@example.com/")]
+    work = ["\u20ac" * (40 + i) for i in range(n)]
+
+    def one_long(kind, text):
+        return str(URL(text + "?" + str(one_long.k))) if kind == "path" else str(URL(text + str(one_long.k)))
+
+    one_long.k = 0
+    base = URL("http://h/")
+    want_long = {}
+    for k in range(rounds):
+        one_long.k = k
+        for kind, text in longs:
+            want_long[kind, k] = one_long(kind, text)
+    want_work = [str(base.with_query({"q": w}).with_fragment(w)) for w in work]
+    bad, stop = [], threading.Event()
+    hits = [0]
+
+    def handler(signum, frame):
+        hits[0] += 1
+
+    def worker(i):
+        while not stop.is_set():
+            got = str(base.with_query({"q": work[i]}).with_fragment(work[i]))
+            if got != want_work[i]:
+                bad.append(["worker", i, got[:80], want_work[i][:80]])
+                return
+
+    ths = [threading.Thread(target=worker, args=(i,), daemon=True) for i in range(n)]
+    signal.signal(signal.SIGALRM, handler)
+    for t in ths:
+        t.start()
+    signal.setitimer(signal.ITIMER_REAL, 0.0003, 0.0003)
+    t0 = time.monotonic()
+    try:
+        for k in range(rounds):
+            one_long.k = k
+            for kind, text in longs:
+                try:
+                    got = one_long(kind, text)
+                except BaseException as e:  # noqa: BLE001
+                    got = "EXC:%s:%s" % (type(e).__name__, str(e)[:120])
+                if got != want_long[kind, k]:
+                    d = next((x for x in range(min(len(got), len(want_long[kind, k]))) if got[x] != want_long[kind, k][x]), -1)
+                    bad.append(["main", kind, k, d, got[max(d, 0):max(d, 0) + 40], want_long[kind, k][max(d, 0):max(d, 0) + 40]])
+            if bad or time.monotonic() - t0 > 20:
+                break
+    finally:
+        signal.setitimer(signal.ITIMER_REAL, 0, 0)
+        stop.set()
+    for t in ths:
+        t.join(10)
+    sys.stdout.write(json.dumps({"bad": bad[:5], "handler_runs": hits[0], "rounds": k + 1}))
+    sys.stdout.flush()
+    import os
+
+    os._exit(0)
+
+
 def main():
     mode, n = sys.argv[1], int(sys.argv[2])
     sys.setswitchinterval(1e-6)
+    if mode == "sig":
+        return signals(n, int(sys.argv[3]))
     from yarl import URL
 
     table = ops(URL)
